@@ -20,6 +20,7 @@ import (
 	specqbft "github.com/bloxapp/ssv-spec/qbft"
 	spectypes "github.com/bloxapp/ssv-spec/types"
 	tu "github.com/bloxapp/ssv-spec/types/testingutils"
+	"github.com/herumi/bls-eth-go-binary/bls"
 	pubsub "github.com/libp2p/go-libp2p-pubsub"
 	pspb "github.com/libp2p/go-libp2p-pubsub/pb"
 	"github.com/libp2p/go-libp2p/core/crypto"
@@ -329,10 +330,80 @@ func genC08(run *hx.Run, r *hx.Rng) {
 			c2.ValidateP2P(data, l.topic, l.at, l.kind)
 		}
 	}
+	unservedIDStream(run, r)
 	genKernels(run, r, run.N/10)
 	genFuzz(run, r, run.N*3/10)
 	genNodeInfoStruct(run, r, run.N/4)
 	hangBlock(run, r) // last: if it deadlocks the validator the harness reports and exits
+}
+
+// ---------------------------------------------------------------- refused traffic must leave no per-id state (resource clause)
+
+// unservedIDStream: ONE validator receives a long stream of messages whose ids do not name a validator this node serves —
+// mostly distinct, well-formed, unregistered BLS public keys with the right domain and a valid role (the id space an attacker
+// can choose from is unbounded), also registered-but-unserved validators (liquidated, no metadata, exited) in every role, a
+// foreign domain, invalid roles and malformed keys — carrying honest bodies, through validateSSVMessage and (every 8th) the
+// pubsub entry point. Oracle (exec.go perIDState, on the validator's internals through the shim): none of them leaves a
+// validation lock or a consensus state behind; interleaved honest traffic for the served validator keeps the per-id maps at
+// their bounded size.
+func unservedIDStream(run *hx.Run, r *hx.Rng) {
+	n := 120
+	if run.Tier == "thorough" {
+		n = 3000
+	}
+	t := pickTrace(run, r, 0)
+	if len(t.Msgs) == 0 {
+		return
+	}
+	w := t.W
+	c := NewCase(run, w, false, "c08/unserved-id-stream")
+	l0, i0 := validation.VerifPerIDStateSizes(c.MV)
+	served := 0
+	for i := 0; i < n; i++ {
+		k := r.Intn(len(t.Msgs))
+		body := t.Msgs[k].Msg
+		role := spectypes.BeaconRole(r.Intn(7))
+		dom := w.NetCfg.Domain
+		var pk []byte
+		kind := "unserved-id:unknown-validator"
+		switch x := r.Intn(100); {
+		case x < 70:
+			var sk bls.SecretKey
+			if err := sk.SetLittleEndian(r.Bytes(31)); err != nil {
+				continue
+			}
+			pk = sk.GetPublicKey().Serialize()
+		case x < 82:
+			f := []int{vLiquid, vNoMeta, vExited}[r.Intn(3)]
+			pk, kind = w.PKs[f], "unserved-id:"+flavourNames[f]
+		case x < 88:
+			pk, kind = w.PKs[vMain], "unserved-id:foreign-domain"
+			dom = spectypes.DomainType{dom[0], dom[1], dom[2], dom[3] ^ byte(1+r.Intn(255))}
+		case x < 93:
+			pk, kind = w.PKs[vMain], "unserved-id:invalid-role"
+			role = spectypes.BeaconRole(7 + r.Intn(1<<20))
+		case x < 97:
+			pk, kind = r.Bytes(48), "unserved-id:malformed-key"
+		default:
+			// honest traffic of the served validator in between: creates (bounded) per-id state, must not disturb the accounting
+			c.ValidateSSV(body, t.Time(k), Env{Mode: "n"}, "unserved-id:served-in-between")
+			served++
+			continue
+		}
+		msg := &spectypes.SSVMessage{MsgType: body.MsgType, MsgID: spectypes.NewMsgID(dom, pk, role), Data: body.Data}
+		if i%8 == 7 {
+			if enc, err := msg.Encode(); err == nil {
+				c.ValidateP2P(enc, topicsOf(msg)[0], t.Time(k), kind+"-p2p")
+				continue
+			}
+		}
+		c.ValidateSSV(msg, t.Time(k), Env{Mode: "n"}, kind)
+	}
+	l1, i1 := validation.VerifPerIDStateSizes(c.MV)
+	run.Extra["unserved_id_stream"] = fmt.Sprintf("%d calls for unserved ids (+%d served in between): validation locks %d -> %d, consensus states %d -> %d", c.refusedCalls, served, l0, l1, i0, i1)
+	if c.refusedCalls > 0 && (l1 > 7 || i1 > 7) {
+		c.violate("C08/unserved-id-leaves-per-id-state", fmt.Sprintf("after %d calls for ids this node does not serve the validator holds %d validation locks and %d consensus states (one served validator: at most 7 each)", c.refusedCalls, l1, i1))
+	}
 }
 
 // ---------------------------------------------------------------- arithmetic kernels (direct comparison with the model)
